@@ -233,7 +233,7 @@ Proof.
   assert (Sym : forall x y, spec_symbol x = Some (t, y) -> False).
   { intros x y Hs. destruct (spec_symbol_inv _ _ _ Hs) as (z & _ & _ & -> & _). discriminate K. }
   assert (Num : forall x y, spec_number x = Some (t, y) -> False).
-  { intros x y Hs. unfold spec_number in Hs. destruct (LuaLex.num_run (LuaLex.is_hex_prefix x) false x) as [run rs].
+  { intros x y Hs. unfold spec_number in Hs. destruct (LuaLex.num_split x) as [run rs].
     destruct (LuaLex.spec_numeral run) as [[n d]|]; [|discriminate]. inversion Hs; subst. discriminate K. }
   assert (Lc : forall x y, LuaLex.line_comment x = Some (t, y) -> False).
   { intros x y Hs. unfold LuaLex.line_comment in Hs. destruct (LuaLex.span _ x). inversion Hs; subst. discriminate K. }
